@@ -70,12 +70,17 @@ func (s *serverSocket) checkMiddlewareFunc(rv reflect.Value) error {
 	return nil
 }
 
-func (s *serverSocket) callMiddlewares(values []reflect.Value) error {
+func (s *serverSocket) callMiddlewares(eventName string, values []reflect.Value) error {
 	s.middlewareFuncsMu.RLock()
 	defer s.middlewareFuncsMu.RUnlock()
 
+	// The signature of a middleware is: func(eventName string, v ...any) error
+	args := make([]reflect.Value, 0, len(values)+1)
+	args = append(args, reflect.ValueOf(eventName))
+	args = append(args, values...)
+
 	for _, f := range s.middlewareFuncs {
-		err := s.callMiddlewareFunc(f, values)
+		err := s.callMiddlewareFunc(f, args)
 		if err != nil {
 			return err
 		}
